@@ -223,6 +223,9 @@ type Source struct {
 	Faults      []RFault `json:"faults,omitempty"`
 	EOFWithData bool     `json:"eof_with_data,omitempty"`
 	Yields      int      `json:"yields,omitempty"`
+	// Bufio > 0: the Reader is given a bufio.Reader of that buffer size wrapped
+	// around the simulated source (a common source type with extra methods).
+	Bufio int `json:"bufio,omitempty"`
 }
 
 // ROp is one call on a Reader.
@@ -259,6 +262,9 @@ type CScript struct {
 	Exact     bool   `json:"exact,omitempty"`
 	ExactSeed uint64 `json:"exact_seed,omitempty"`
 	MaxCalls  int    `json:"max_calls,omitempty"`
+	// Next: after this stream ended (io.EOF or an error) the same object is
+	// Reset onto a new source, options are applied and a second stream is read.
+	Next *CScript `json:"next,omitempty"`
 }
 
 // BCall is one package-level block compression call (C14).
